@@ -23,6 +23,16 @@ def selftest(verbose=True):
                     depth -= 1
                 elif re.match(r"\s*(Variable|Hypothesis|Variables|Hypotheses)\b", line) and depth == 0:
                     bad.append("%s: %s outside a section" % (f, line.strip()))
+    # frozen fall-back data must follow the unchanged tree: say so when it does not (information, not a hygiene problem:
+    # on a modified tree the two legitimately differ)
+    try:
+        body = lambda t: t[t.index("*)") + 2:] if "*)" in t else t
+        g = body(open(os.path.join(C.COQ, "Spec", "DriverSkelGolden.v")).read())
+        r = body(open(os.path.join(C.COQ, "Gen", "DriverSkel.v")).read())
+        if verbose and g.strip() != r.strip():
+            print("selftest: note: Spec/DriverSkelGolden.v differs from the regenerated Gen/DriverSkel.v")
+    except OSError:
+        pass
     if verbose:
         for b in bad:
             print("selftest:", b)
